@@ -20,7 +20,9 @@ def pkt_key(p):
 def evaluate(spec):
     b = scenario.build(spec)
     wd = engine.workdir()
-    keys = {"file": True, "shuffle": True, "seed": spec.get("kseed", 0)}
+    # the key log is shared: all connections' lines shuffled together, sometimes among hundreds of lines of connections that are not
+    # in the capture (a browser's SSLKEYLOGFILE), so that the log is several read blocks long
+    keys = {"file": True, "shuffle": True, "seed": spec.get("kseed", 0), "unrelated": spec.get("kpad", 0)}
     o = oracle.run_e2e(b, wd, keys=keys, name="all")
     f = oracle.base_failure(o)
     evals = 1
@@ -85,6 +87,7 @@ def evaluate(spec):
         labels.append("client-port-equals-a-quic-server-port")
     if sum(1 for c in spec["conns"] if c.get("share_master")) >= 2:
         labels.append("tls-connections-with-equal-master-secret")
+    labels.append("keylog:" + ("long (%d foreign lines)" % spec["kpad"] if spec.get("kpad") else "own lines only"))
     return {"sig": sig, "detail": detail, "nontrivial": exporting >= 2 and alt >= 3, "labels": labels, "evals": evals}
 
 
@@ -151,7 +154,7 @@ def spec_strategy(draw, tier):
         c["seed"] = c.get("seed", 0) * 16 + i
         conns.append(c)
     return {"conns": conns, "order": draw(st.lists(st.integers(0, 9), min_size=2, max_size=20)), "tseed": draw(st.integers(1, 1000)),
-            "kseed": draw(st.integers(0, 1 << 20)), "topology": topology}
+            "kseed": draw(st.integers(0, 1 << 20)), "topology": topology, "kpad": draw(st.sampled_from([0, 0, 0, 120, 400]))}
 
 
 @st.composite
